@@ -157,7 +157,11 @@ def parse_harness_file(path):
             continue
         m = MACRO_USE.match(line)
         if m and m.group(1) in macros:
-            hf.obligations.append(make_ob(hf, path, ln, m.group(2), macros[m.group(1)], inst=m.group(3) or ""))
+            # annotations written directly above the invocation override the ones inside the macro definition
+            merged = dict(macros[m.group(1)])
+            merged.update(pending)
+            hf.obligations.append(make_ob(hf, path, ln, m.group(2), merged, inst=m.group(3) or ""))
+            pending = {}
     if not (hf.property and hf.crate and hf.target):
         raise SystemExit(f"harness file {path}: missing //@ property/crate/target header")
     return hf
